@@ -17,17 +17,17 @@ import (
 // session package; its inserting / deleting / looking-up functions; the stream table (C11);
 // the HTTP entry = ServeHTTP of the handler type that owns the stream table.
 //
-//   R-sid-entropy     session ids come from >=16 bytes of crypto/rand, error edge cut, ASCII encoder
-//   R-issue-point     exactly one request-path call site creates a table session; it is controlled by
-//                     "no Mcp-Session-Id header", "method is initialize" and "not stateless"
-//   R-refuse          lookup-failed / unknown-id edges answer 404 (missing id: 400) and reach no state change
-//   R-header-guard    every Set("Mcp-Session-Id", v) on a response is under the false edge of a
-//                     stateless flag and v is GetID() of the request's own session
-//   R-stateless       stateless flag => GET answered 405 before any registration; throw-away sessions
-//                     are built by the constructor that does not insert into the table
-//   R-delete          the success edge of session termination passes the stream cleanup before answering
-//   R-table           session table: all accesses locked (writes exclusively), writers are methods of the
-//                     owning type only, every delete is decided by a lookup in the same critical section
+//	R-sid-entropy     session ids come from >=16 bytes of crypto/rand, error edge cut, ASCII encoder
+//	R-issue-point     exactly one request-path call site creates a table session; it is controlled by
+//	                  "no Mcp-Session-Id header", "method is initialize" and "not stateless"
+//	R-refuse          lookup-failed / unknown-id edges answer 404 (missing id: 400) and reach no state change
+//	R-header-guard    every Set("Mcp-Session-Id", v) on a response is under the false edge of a
+//	                  stateless flag and v is GetID() of the request's own session
+//	R-stateless       stateless flag => GET answered 405 before any registration; throw-away sessions
+//	                  are built by the constructor that does not insert into the table
+//	R-delete          the success edge of session termination passes the stream cleanup before answering
+//	R-table           session table: all accesses locked (writes exclusively), writers are methods of the
+//	                  owning type only, every delete is decided by a lookup in the same critical section
 func init() { Registry["C04"] = checkC04 }
 
 type c04ctx struct {
@@ -249,9 +249,9 @@ func (x *c04ctx) sessElem() *types.Named {
 }
 
 var asciiEncoders = map[string]bool{
-	"encoding/hex.EncodeToString":                     true,
-	"(*encoding/base64.Encoding).EncodeToString":      true,
-	"(*encoding/base32.Encoding).EncodeToString":      true,
+	"encoding/hex.EncodeToString":                true,
+	"(*encoding/base64.Encoding).EncodeToString": true,
+	"(*encoding/base32.Encoding).EncodeToString": true,
 }
 
 func generatorOK(gen *ssa.Function) (bool, string) {
